@@ -582,7 +582,7 @@ structure VarSys (α : Type) where
   links : List (LinkSt α)
 
 /-- number of links (position by position with their descriptions) that satisfy `sel` -/
-def countSel (sel : LinkSpec α → LinkSt α → Bool) : List (LinkSpec α) → List (LinkSt α) → Nat
+def countSel {γ δ : Type} (sel : γ → δ → Bool) : List γ → List δ → Nat
   | l :: ls, x :: xs => (if sel l x then 1 else 0) + countSel sel ls xs
   | _, _ => 0
 
